@@ -9,7 +9,7 @@ the reference merge (C05) of that subtree with the right document - the
 frame outside the targets must be untouched - or created to hold the right
 document, or a refusal.
 """
-from vkit import core, corpus, mergerun, paths, refedit, refmerge, refquery
+from vkit import editrun, core, corpus, mergerun, paths, refedit, refmerge, refquery
 from vkit.props import C09
 
 ID = "C11"
@@ -99,6 +99,7 @@ def run_shard(shard):
         empty_left_family(st)
         alias_family(st)
         pad_family(st)
+        replacing_family(st)
     return st
 
 
@@ -202,6 +203,77 @@ def pad_family(st):
             if _plain(data) != want:
                 st.fail("created-index|wrong-result", case, repr(want),
                         repr(_plain(data)))
+
+
+R_POL = dict(hashes="right", arrays="all", aoh="all", sets="unique")
+AR_POL = dict(hashes="deep", arrays="right", aoh="all", sets="unique")
+REPLACING_CASES = [
+    # (left, [right documents merged one after the other], merge point,
+    #  policy, expected): policies that REPLACE the target must replace it at
+    # every place it is matched, also when the places hold one shared node
+    ("t: {x: &x {k: 1}, y: *x}\n", ["n: 2\n"], "/t/*", R_POL,
+     {"t": {"x": {"n": 2}, "y": {"n": 2}}}),
+    ("hs: {h1: {a: 1}, h2: {a: 2}}\n", ["z: 1\n", "z: 2\n"], "/hs/*", R_POL,
+     {"hs": {"h1": {"z": 2}, "h2": {"z": 2}}}),
+    ("l: &l [1]\na: *l\n", ["[7]\n"], "/*", AR_POL, {"l": [7], "a": [7]}),
+    ("hs: {h1: {a: [1]}, h2: {a: [2]}}\n", ["a: [8]\n", "a: [9]\n"],
+     "/hs/*", AR_POL, {"hs": {"h1": {"a": [9]}, "h2": {"a": [9]}}}),
+]
+
+
+def replacing_family(st):
+    for ltext, rtexts, at, pol, want in REPLACING_CASES:
+        st.evaluations += 1
+        st.transitions += len(rtexts)
+        st.validated += 1
+        case = {"lhs": ltext, "rhs": rtexts, "mergeat": at, "segs": [],
+                "policies": pol, "alias_case": True}
+        doc = corpus.load(ltext)
+        res = "ok"
+        try:
+            with core.watchdog(10):
+                for rtext in rtexts:
+                    cfg = mergerun.make_config(pol, mergeat=at)
+                    res, doc = mergerun.merge(doc, corpus.load(rtext), cfg)
+                    if res != "ok":
+                        break
+        except core.Hang:
+            st.fail("replaced-target|hang", case, repr(want), "no result")
+            continue
+        st.outcomes["replacing:" + res] += 1
+        if res != "ok":
+            st.fail("replaced-target|%s" % res, case, repr(want), str(doc))
+            continue
+        st.states += 1
+        st.sig("replaced-target", ltext, at)
+        if _plain(doc) != want:
+            st.fail("replaced-target|wrong-result", case, repr(want),
+                    repr(_plain(doc)))
+    # an empty left document and a merge point nothing can be built for:
+    # a merge error or the right-hand document, never a crash or a loop
+    for at in ("/*", "/a/*", "/**", "/[.=x]"):
+        st.evaluations += 1
+        st.validated += 1
+        case = {"lhs": "", "rhs": "k: {x: 1}\n", "mergeat": at, "segs": [],
+                "policies": POLS[0], "alias_case": True}
+        cfg = mergerun.make_config(POLS[0], mergeat=at)
+        try:
+            with core.watchdog(10):
+                res, data = mergerun.merge(None, corpus.load("k: {x: 1}\n"),
+                                           cfg)
+        except core.Hang:
+            st.fail("empty-left-unbuildable|hang", case, "an answer", "none")
+            continue
+        st.outcomes["unbuildable:" + res] += 1
+        if res == "crash":
+            st.fail("empty-left-unbuildable|crash", case,
+                    "a merge error or a document", str(data))
+        elif res == "ok":
+            try:
+                editrun.dump(data)
+            except Exception as ex:       # pylint: disable=broad-except
+                st.fail("empty-left-unbuildable|undumpable", case,
+                        "a finite document", type(ex).__name__)
 
 
 def alias_family(st):
@@ -440,6 +512,7 @@ def replay(case):
         empty_left_family(st)
         alias_family(st)
         pad_family(st)
+        replacing_family(st)
         for lst in st.fails.values():
             for f in lst:
                 if all(f["case"][k] == case[k] for k in
